@@ -158,7 +158,8 @@ impl ExternalDevice for TimerDevice {
         match self.time {
             0 => {
                 self.reset_remaining();
-                None
+                // A fresh count of 0 means no poll separates this interrupt from the previous one.
+                (self.time == 0).then(|| super::Interrupt::vectored(self.vect, self.priority))
             },
             1 => {
                 self.time = 0;
